@@ -94,7 +94,13 @@ def random_decomp(rng, W, H, n, border, big=True):
             rs[hi][axis] = L - rs[hi][axis + 2]
     subs = []
     for (ox, oy, w, h) in rs:
-        bl, br, bt, bb = [rng.randint(0, border) if rng.random() < 0.7 else 0 for _ in range(4)]
+        b4 = [rng.randint(0, border) if rng.random() < 0.7 else 0 for _ in range(4)]
+        if rng.random() < 0.35:
+            # asymmetric: one side's undefined band is tall / wide (up to 60 % of the input: more than a tile's share
+            # of the segment, whole tile rows or columns of it), the opposite side keeps its thin one
+            side = rng.randrange(4)
+            b4[side] = rng.randint(0, max(border, (6 * (w if side < 2 else h)) // 10))
+        bl, br, bt, bb = b4
         if rng.random() < 0.1:
             bl = w                                          # a completely undefined input
         hole = (0, 0, 0, 0)
@@ -126,7 +132,7 @@ def abstract_sets(rng, quick):
             n = (4 if i == 0 else rng.choice([2, 3, 3])) if quick else (rng.choice([2, 3, 3, 4]) if ts == 2 else rng.choice([2, 3, 3]))
             W = rng.randint(1, ts * 2 + ts // 2 + 1)
             H = rng.randint(1, ts * 2 + ts // 2 + 1)
-            lits.append(decomp_lit(W, H, random_decomp(rng, W, H, n, 1 if ts == 2 else 2, big=rng.random() < 0.6),
+            lits.append(decomp_lit(W, H, random_decomp(rng, W, H, n, rng.choice([1, 1, ts]) if ts == 2 else rng.choice([2, 2, ts + 1]), big=rng.random() < 0.6),
                                    rng.random() < 0.5, rng.randint(-9, 15), rng.randint(-9, 15)))
         if lits:
             fam["random-ts%d" % ts] = (ts, lits, 0)
@@ -209,6 +215,7 @@ def real_cases(rng, quick):
                  dtype=rng.choice(["f4", "f4", "f8"]), seed=rng.randrange(1 << 30), tag=kw.pop("tag", "seeded"))
         c.update(kw)
         c.setdefault("blank", BLANKS[len(cases) % len(BLANKS)])
+        c.setdefault("extreme", len(cases) % 2 == 0)
         cases.append(c)
     # the critical sizes of C08, in pairs that reach 1, 2 and 4 tiles per axis
     crit_pairs = [(255, 256), (256, 256), (257, 255), (511, 300), (512, 513), (513, 511)] if quick else \
@@ -233,6 +240,25 @@ def real_cases(rng, quick):
         cover = sub(ox, 0, 1024 - ox, hh, bl=band, bt=rng.randint(0, 9), hole=(band + 40, band + 90, hh // 2 - 30, hh // 2 + 40))
         add(1024, hh, 2, tag="full-tile", agree=(hh != 1024))
         cases[-1]["subs"] = [sub(0, 0, pw, hh, br=rng.randint(0, 12)), cover]
+    # vertically / horizontally ASYMMETRIC undefined bands: a frame spanning several tile rows and columns whose band on one
+    # side (30-55 % of it) is taller than the piece its opposite edge pokes into the first / last tile, and a strip that
+    # supplies the band's region; each side in turn
+    for side in (["bb", "bt", "br", "bl"] if quick else ["bb", "bt", "br", "bl", "bb", "bt"]):
+        W, H = rng.randint(520, 760), rng.randint(520, 760)
+        L = H if side in ("bb", "bt") else W
+        band = rng.randint((3 * L) // 10, (55 * L) // 100)
+        frame = sub(0, 0, W, H, **{side: band})
+        thin = {k: rng.randint(0, 6) for k in ("bl", "br", "bt", "bb")}
+        if side == "bb":
+            strip = sub(rng.randint(0, 40), H - band - 10, W - 60, band + 10, **thin)
+        elif side == "bt":
+            strip = sub(rng.randint(0, 40), 0, W - 60, band + 10, **thin)
+        elif side == "br":
+            strip = sub(W - band - 10, rng.randint(0, 40), band + 10, H - 60, **thin)
+        else:
+            strip = sub(0, rng.randint(0, 40), band + 10, H - 60, **thin)
+        add(W, H, 2, tag="asym-band")
+        cases[-1]["subs"] = [frame, strip]
     # grids rotated by exactly 0, +-90, 180 and 45 degrees (matrix elements that are exactly 0 or equal), written as a CD
     # matrix and as PC + CDELT; one tile and several tiles
     for i, rot in enumerate(["0", "90", "-90", "180", "45"]):
@@ -303,7 +329,11 @@ def truth_array(case):
     # largest / smallest magnitudes of the type, negative data - single pixels everywhere (overlaps, borders of the inputs,
     # tile edges) and a few small blocks
     fi = np.finfo(a.dtype)
-    special = np.array([np.inf, -np.inf, 0.0, -0.0, fi.max, -fi.max, fi.tiny, fi.smallest_subnormal, -1.0, -fi.eps], dtype=a.dtype)
+    special = [np.inf, -np.inf, 0.0, -0.0, fi.tiny, fi.smallest_subnormal]
+    if case.get("extreme", True):
+        # (not everywhere: a tile that holds +-max has the same recorded data range whatever else is merged into it)
+        special += [fi.max, -fi.max, -1.0, -fi.eps]
+    special = np.array(special, dtype=a.dtype)
     n = a.size
     idx = g.choice(n, size=max(8, n // 150), replace=False)
     a.flat[idx] = special[g.integers(0, len(special), size=len(idx))]
@@ -473,10 +503,10 @@ def same(a, b):
 
 
 def read_tiles(out, fmt, lev):
-    """-> ({(tx, ty): array}, [unexpected files], [lock files])"""
+    """-> ({(tx, ty): array}, [unexpected files], [lock files], {(tx, ty): (DATAMIN, DATAMAX)} for FITS tiles)"""
     import numpy as np
     from astropy.io import fits
-    tiles, odd, locks = {}, [], []
+    tiles, odd, locks, cards = {}, [], [], {}
     for root, _ds, fs in os.walk(out):
         for fn in fs:
             p = os.path.join(root, fn)
@@ -498,9 +528,37 @@ def read_tiles(out, fmt, lev):
             if fmt == "fits":
                 with fits.open(p) as hdul:
                     tiles[(tx, ty)] = np.array(hdul[0].data)
+                    cards[(tx, ty)] = (hdul[0].header.get("DATAMIN"), hdul[0].header.get("DATAMAX"))
             else:
                 tiles[(tx, ty)] = np.load(p)
-    return tiles, sorted(odd), sorted(locks)
+    return tiles, sorted(odd), sorted(locks), cards
+
+
+def finite_range(t):
+    """(min, max) of the finite pixels, (None, None) if there is none - what a FITS tile records as DATAMIN / DATAMAX."""
+    import numpy as np
+    f = t[np.isfinite(t)]
+    return (float(f.min()), float(f.max())) if f.size else (None, None)
+
+
+def compare_cards(cards, pixels, single_cards, what, res, key, rep):
+    """The tile FILES, beyond their pixels: every deepest-level FITS tile records the range of its own (expected) pixels,
+    and the same cards as the tile of the pasted mosaic."""
+    for p in sorted(cards):
+        if p not in pixels:
+            continue
+        exp = finite_range(pixels[p])
+        tol = 2e-6 if pixels[p].dtype.itemsize == 4 else 1e-12
+        for name, got, want in (("DATAMIN", cards[p][0], exp[0]), ("DATAMAX", cards[p][1], exp[1])):
+            bad = (got is None) != (want is None) or (got is not None and abs(float(got) - want) > tol * max(1.0, abs(want)))
+            if bad:
+                res.append(("V", key, "%s: tile (x %d, y %d) records %s = %r, its pixels (as the specification predicts them) range to %r"
+                            % (what, p[0], p[1], name, got, want), rep))
+                return False
+        if single_cards is not None and p in single_cards and tuple(single_cards[p]) != tuple(cards[p]):
+            res.append(("V", key, "%s: tile (x %d, y %d) records DATAMIN/DATAMAX %r, the tile of the pasted mosaic %r" % (what, p[0], p[1], cards[p], single_cards[p]), rep))
+            return False
+    return True
 
 
 def field_diff(name, a, b):
@@ -790,8 +848,8 @@ def replay_group(args):
         so = os.path.join(wd, "single-" + fmt)
         try:
             sf, slev = run_single(mp_, so, fmt)
-            st, sodd, _ = read_tiles(so, fmt, slev)
-            single[fmt] = (sf, slev, st)
+            st, sodd, _, scards = read_tiles(so, fmt, slev)
+            single[fmt] = (sf, slev, st, scards)
             info["single"] += 1
         except Exception as e:  # noqa
             import traceback
@@ -830,7 +888,7 @@ def replay_group(args):
             lev = int(fields["tile_levels"])
         else:
             fields, lev = r["fields"], r["lev"]
-        got, odd, locks = read_tiles(r.get("outdir", out), fmt, lev)
+        got, odd, locks, cards = read_tiles(r.get("outdir", out), fmt, lev)
         if mode == "cli-view":
             odd = []                                            # `view` also builds the shallower levels
         # (1) tiles against TLC's expectation and against the single-image run
@@ -844,6 +902,10 @@ def replay_group(args):
             sgl.update(single[fmt][2])
             compare_tiles(got, sgl,
                           "%s run, %s tiles, against the single-image tiling of the pasted mosaic" % (mkey, fmt), res, key + ":tiles", rrep)
+        if fmt == "fits":
+            strict = ok and fmt in single
+            compare_cards(cards, want[fmt] if ok else got, single[fmt][3] if strict else None,
+                          "%s run, fits tiles" % mkey, res, key + ":tile-range", rrep)
         if odd:
             res.append(("V", key + ":tiles", "files outside the deepest level were written: %s" % (odd[:4],), rrep))
         # (2) lock files
@@ -1062,7 +1124,7 @@ def run(ctx):
             runs.append(dict(fmt="npy" if var["fmt"] == "fits" else "fits", mode="serial", stale=True))
         n = len(case["subs"])
         shared = len({(x[0], y[0]) for ins in exp["ins"] for x in ins["xs"] for y in ins["ys"]}) < sum(len(ins["xs"]) * len(ins["ys"]) for ins in exp["ins"])
-        if first and shared and (case["tag"] in ("one-tile", "critical", "wide", "tall", "full-tile") or not quick):
+        if first and shared and (case["tag"] in ("one-tile", "critical", "wide", "tall", "full-tile", "asym-band") or not quick):
             k = 4 if case["tag"] == "one-tile" else (2 if quick else 6)
             for j in range(k):
                 runs.append(dict(fmt="fits" if j % 3 else "npy", mode="sim", parallel=2 + (j % 2 if n > 2 else 0), policy=pols[(nsim + j) % len(pols)],
